@@ -143,18 +143,18 @@ def step_attribute_values(yielded, pre, self, token):
 
 @contract(SER + ".serialize")
 class Serialize:
-    props = ("C08", "C10")
+    props = ("C08", "C10", "C07")
     modular = False
     split_depth = 9
 
     def inputs(S):
         return dict(self=serializer(S), treewalker=S.abstract("Walker"), encoding=None)
 
-    loops = {"For1": LoopSpec(havoc=ser_havoc, invariant=ser_inv, element=ser_token, props=("C08", "C10"),
-                              step=[clause("text_is_escaped_or_reported", step_text, "C08", "C10"),
-                                    clause("raw_text_state", step_raw_text_state, "C08"),
-                                    clause("comment_and_end_tag", step_comment_and_end_tag, "C08"),
-                                    clause("attribute_values", step_attribute_values, "C08", "C10")])}
+    loops = {"For1": LoopSpec(havoc=ser_havoc, invariant=ser_inv, element=ser_token, props=("C08", "C10", "C07"),
+                              step=[clause("text_is_escaped_or_reported", step_text, "C08", "C10", "C07"),
+                                    clause("raw_text_state", step_raw_text_state, "C08", "C07"),
+                                    clause("comment_and_end_tag", step_comment_and_end_tag, "C08", "C07"),
+                                    clause("attribute_values", step_attribute_values, "C08", "C10", "C07")])}
 
 
 step_text._bounded = BOUND
